@@ -1002,7 +1002,52 @@ class _Ev:
             self.shadow.pop()
         return new
 
+    def _unrolled_comp(self, e, fields):
+        """[f(x) for x in (a, b, c)] over a literal display is the display [f(a), f(b), f(c)]"""
+        if len(e.generators) != 1 or e.generators[0].ifs or e.generators[0].is_async or isinstance(e, ast.GeneratorExp):
+            return None
+        g = e.generators[0]
+        it = self.v(g.iter, cond=False)
+        if not isinstance(it, (ast.Tuple, ast.List)) or not (0 < len(it.elts) <= 8) or any(isinstance(x, ast.Starred) for x in it.elts):
+            return None
+
+        def bind(t, v, out):
+            if isinstance(t, ast.Name):
+                out[t.id] = v
+                return True
+            if isinstance(t, (ast.Tuple, ast.List)) and isinstance(v, (ast.Tuple, ast.List)) and len(t.elts) == len(v.elts) \
+                    and not any(isinstance(x, ast.Starred) for x in list(t.elts) + list(v.elts)):
+                return all(bind(a, b, out) for a, b in zip(t.elts, v.elts))
+            return False
+        rows = []
+        for el in it.elts:
+            b = {}
+            if not bind(g.target, el, b):
+                return None
+            rows.append(b)
+        results = []
+        for b in rows:
+            saved = {k: self.st.env.get(k) for k in b}
+            self.st.env.update(b)
+            try:
+                results.append([self.v(getattr(e, f), True) for f in fields])
+            finally:
+                for k, v in saved.items():
+                    if v is None:
+                        self.st.env.pop(k, None)
+                    else:
+                        self.st.env[k] = v
+        if isinstance(e, ast.DictComp):
+            return ast.Dict(keys=[r[0] for r in results], values=[r[1] for r in results])
+        if isinstance(e, ast.SetComp):
+            return ast.Set(elts=[r[0] for r in results])
+        return ast.List(elts=[r[0] for r in results], ctx=ast.Load())
+
     def _comp(self, e, fields):
+        if not self.shadow:
+            u = self._unrolled_comp(e, fields)
+            if u is not None:
+                return u
         names = set()
         for g in e.generators:
             names |= _target_names(g.target)
